@@ -1015,6 +1015,8 @@ def m_int(eng, args, kwargs, node, frame):
     base = args[1] if len(args) > 1 else kwargs.get("base")
     if isinstance(v, VSeq):
         b = const_of(as_int(eng, base)) if base is not None else 10
+        if b == 16:
+            return int_base16(eng, v, node)
         name = f"int_base{b}"
         if name in eng.vf.specs:
             return eng.vf.specs[name].sym(eng, v, node=node)
@@ -1401,11 +1403,8 @@ def call_method(eng, recv, r, name, args, kwargs, node, frame):
         raise OutOfSubset(node, f"method dict.{name}")
     if isinstance(r, VStr):
         if name in ("encode",):
-            sp = eng.vf.specs.get("fstring_encode")
-            if sp is not None and getattr(r, "fnode", None) is not None:
-                res = sp.sym(eng, r, node=node)
-                if res is not None:
-                    return res
+            if getattr(r, "hexfmt", None) is not None:
+                return fmt_hex_bytes(eng, *r.hexfmt)
             if r.s is not None:
                 return seq_const(r.s.encode("utf-8"))
             arr = fresh_arr("enc")
@@ -1420,6 +1419,8 @@ def call_method(eng, recv, r, name, args, kwargs, node, frame):
         return eng.opaque_call(f"str.{name}", [], node, havoc_args=False)
     if isinstance(r, VOpaque):
         rng = getattr(r, "range", None)
+        if name in ("debug", "info", "warning", "error", "exception", "critical", "log") and "logger" in (r.tag or "").lower():
+            return NONE      # logging: arguments were evaluated; the call itself has no modelled effect
         con = C.lookup("<opaque>", f"{r.tag}.{name}")
         if con is not None:
             return eng.call_contract(con, [recv] + args, kwargs, node, frame)
@@ -1537,7 +1538,22 @@ def sm_join(eng, recv, r, args, kwargs, node):
 
 @seqm("decode")
 def sm_decode(eng, recv, r, args, kwargs, node):
-    if not eng.spec and eng.branch(fresh_bool("decode_fails")):
+    enc = args[0].s if args and isinstance(args[0], VStr) else (kwargs["encoding"].s if "encoding" in kwargs and isinstance(kwargs["encoding"], VStr) else "utf-8")
+    errors = args[1].s if len(args) > 1 and isinstance(args[1], VStr) else (kwargs["errors"].s if "errors" in kwargs and isinstance(kwargs["errors"], VStr) else "strict")
+    if eng.spec or errors in ("replace", "ignore", "surrogateescape", "backslashreplace"):
+        pass
+    elif enc == "ascii":
+        cl = r.const_len()
+        if cl is not None and cl <= 16:
+            ok = z3.And([r.at(z3.IntVal(i)) < 128 for i in range(cl)] or [z3.BoolVal(True)])
+        else:
+            k = fresh_bound("k")
+            ok = z3.ForAll([k], z3.Implies(z3.And(0 <= k, k < r.n), r.at(k) < 128))
+        if not eng.branch(ok):
+            eng.raise_exc("UnicodeDecodeError", node)
+    elif enc in ("latin-1", "latin1", "iso-8859-1"):
+        pass
+    elif eng.branch(fresh_bool("decode_fails"), free=True):
         eng.raise_exc("UnicodeDecodeError", node)
     s = VStr()
     s.decoded_from = r
@@ -1685,3 +1701,184 @@ def dm_clear(eng, recv, r, args, kwargs, node):
         ks = z3.IntSort() if r.ksort == "int" else Val
         eng.heap[recv.addr] = VDict(z3.K(ks, z3.BoolVal(False)), r.value, r.ksort, r.vsort)
     return NONE
+
+
+# ----------------------------------------------------------------------------------------------
+# io.BytesIO: exact model as (content, pos); validated against CPython by the concrete cross-check
+# ----------------------------------------------------------------------------------------------
+OBJ_MODELS = {}
+
+
+def objm(cls, *names):
+    def deco(fn):
+        for n in names:
+            OBJ_MODELS[(cls, n)] = fn
+        return fn
+    return deco
+
+
+@model("io.BytesIO", "BytesIO")
+def m_bytesio(eng, args, kwargs, node, frame):
+    init = eng.deref(args[0]) if args else seq_const(b"")
+    if not isinstance(init, VSeq):
+        return eng.opaque_call("BytesIO(opaque)", [], node, havoc_args=False)
+    content = VSeq(init.at, init.n, "bytes", init.arr)
+    content.origin = init.origin
+    return eng.alloc(VObj("BytesIO", {"content": content, "pos": VInt(0)}))
+
+
+def _bio(eng, recv):
+    o = eng.heap[recv.addr]
+    return o, o.fields["content"], o.fields["pos"].t
+
+
+def _bio_set(eng, recv, content=None, pos=None):
+    o = eng.heap[recv.addr]
+    nf = dict(o.fields)
+    if content is not None:
+        nf["content"] = content
+    if pos is not None:
+        nf["pos"] = VInt(pos)
+    eng.heap[recv.addr] = VObj(o.cls, nf, o.ident)
+
+
+@objm("BytesIO", "tell")
+def bio_tell(eng, recv, args, kwargs, node):
+    o, c, p = _bio(eng, recv)
+    return VInt(p)
+
+
+@objm("BytesIO", "getvalue")
+def bio_getvalue(eng, recv, args, kwargs, node):
+    o, c, p = _bio(eng, recv)
+    return c
+
+
+@objm("BytesIO", "seek")
+def bio_seek(eng, recv, args, kwargs, node):
+    o, c, p = _bio(eng, recv)
+    off = as_int(eng, args[0])
+    wh = const_of(as_int(eng, args[1])) if len(args) > 1 else 0
+    if wh is None:
+        raise OutOfSubset(node, "symbolic whence")
+    if wh == 0:
+        if not eng.spec and eng.branch(off < 0):
+            eng.raise_exc("ValueError", node)
+        np_ = off
+    elif wh == 1:
+        np_ = z3.If(p + off < 0, 0, p + off)
+    elif wh == 2:
+        np_ = z3.If(c.n + off < 0, 0, c.n + off)
+    else:
+        eng.raise_exc("ValueError", node)
+    _bio_set(eng, recv, pos=np_)
+    return VInt(np_)
+
+
+@objm("BytesIO", "read", "read1")
+def bio_read(eng, recv, args, kwargs, node):
+    o, c, p = _bio(eng, recv)
+    n = None
+    if args and not isinstance(eng.deref(args[0]), VNone):
+        n = as_int(eng, args[0])
+    avail = z3.If(c.n > p, c.n - p, 0)
+    if n is None:
+        k = avail
+    else:
+        k = z3.If(n < 0, avail, z3.If(n < avail, n, avail))
+    k = z3.simplify(k)
+    r = seq_slice_raw(c, p, k, "bytes")
+    _bio_set(eng, recv, pos=p + k)
+    return r
+
+
+@objm("BytesIO", "write")
+def bio_write(eng, recv, args, kwargs, node):
+    o, c, p = _bio(eng, recv)
+    d = eng.deref(args[0])
+    if not isinstance(d, VSeq):
+        raise OutOfSubset(node, f"BytesIO.write({d!r})")
+    n = d.n
+    newlen = z3.If(p + n > c.n, p + n, c.n)
+    nc = VSeq(lambda k: z3.If(z3.And(p <= k, k < p + n), d.at(k - p), z3.If(k < c.n, c.at(k), 0)), z3.simplify(z3.If(n == 0, c.n, newlen)), "bytes")
+    _bio_set(eng, recv, content=nc, pos=p + n)
+    return VInt(n)
+
+
+@objm("BytesIO", "close")
+def bio_close(eng, recv, args, kwargs, node):
+    return NONE
+
+
+@objm("BytesIO", "truncate")
+def bio_truncate(eng, recv, args, kwargs, node):
+    o, c, p = _bio(eng, recv)
+    sz = as_int(eng, args[0]) if args else p
+    nl = z3.If(sz < c.n, sz, c.n)
+    _bio_set(eng, recv, content=VSeq(c.at, nl, "bytes"))
+    return VInt(sz)
+
+
+# ----------------------------------------------------------------------------------------------
+# hexadecimal text: f"{n:04x}".encode("ascii") and int(b, 16)
+# ----------------------------------------------------------------------------------------------
+def hexdigit(d):
+    return z3.If(d < 10, 48 + d, 87 + d)
+
+
+def hexval(c):
+    return z3.If(c <= 57, c - 48, z3.If(c <= 70, c - 55, c - 87))
+
+
+def is_hex(c):
+    return z3.Or(z3.And(c >= 48, c <= 57), z3.And(c >= 65, c <= 70), z3.And(c >= 97, c <= 102))
+
+
+def fmt_hex_bytes(eng, n, width):
+    """bytes of ('%0{width}x' % n) for n >= 0: exact when n < 16**width, longer otherwise."""
+    arr = fresh_arr("hex")
+    ln = fresh_int("hex_len")
+    fits = z3.And(n >= 0, n < 16 ** width)
+    digs = [arr[i] == hexdigit((n / (16 ** (width - 1 - i))) % 16) for i in range(width)]
+    eng.assume(z3.Implies(fits, z3.And([ln == width] + digs)))
+    eng.assume(z3.Implies(z3.And(n >= 0, z3.Not(fits)), ln > width))
+    eng.assume(ln >= 1)
+    eng.byte_facts(arr)
+    eng.vf.note_assumption(f"'%0{width}x' formatting: exactly {width} lower-case hex digits for 0 <= n < 16**{width}, more digits above (validated exhaustively against CPython in the stdlib-axiom guard)")
+    return seq_from_array(arr, ln, "bytes")
+
+
+_old_fstring = fstring
+
+
+def fstring(eng, e, frame):  # noqa: F811
+    s = _old_fstring(eng, e, frame)
+    vals = e.values
+    if len(vals) == 1 and isinstance(vals[0], ast.FormattedValue) and vals[0].format_spec is not None:
+        fs = vals[0].format_spec
+        if isinstance(fs, ast.JoinedStr) and len(fs.values) == 1 and isinstance(fs.values[0], ast.Constant):
+            spec = fs.values[0].value
+            import re as _re
+            m = _re.fullmatch(r"0(\d)x", spec)
+            if m:
+                v = eng.eval(vals[0].value, frame)
+                t = as_int(eng, v)
+                if t is not None:
+                    s.hexfmt = (t, int(m.group(1)))
+    return s
+
+
+def int_base16(eng, v, node=None):
+    """int(b, 16) for a byte string: exact on exactly-4-hex-digit input (the only form accepted
+    after _parse_pkt_line_length's guard); otherwise unknown value or ValueError."""
+    cl = v.const_len()
+    def exact(width):
+        return z3.Sum([hexval(v.at(z3.IntVal(i))) * (16 ** (width - 1 - i)) for i in range(width)])
+    allhex4 = z3.And([v.n == 4] + [is_hex(v.at(z3.IntVal(i))) for i in range(4)])
+    if eng.spec:
+        return VInt(exact(4))
+    if eng.branch(allhex4):
+        return VInt(exact(4))
+    if eng.branch(fresh_bool("int16_raises"), free=True):
+        eng.raise_exc("ValueError", node)
+    return VInt(fresh_int("int16"))
